@@ -133,8 +133,10 @@ def _finish(mod, prop, tier, base, cfg, nshards, results, shard_done, harness_er
                     hs = [ds[0]["_hashseed"], ds[1]["_hashseed"]]
                     viols.append({
                         "class": f"hashseed:{k}", "key": f"hashseed:{k}",
-                        "detail": f"digest {k!r} differs between PYTHONHASHSEED={hs[0]} "
-                                  f"({a.get(k)}) and {hs[1]} ({b.get(k)})",
+                        "detail": f"digest {k!r} differs between the primary interpreter "
+                                  f"(PYTHONHASHSEED={hs[0]}: {a.get(k)}) and the replica interpreter "
+                                  f"(PYTHONHASHSEED={hs[1]}: {b.get(k)}); " +
+                                  getattr(mod, "REPLICA_NOTE", ""),
                         "seed": seed,
                         "replay": dict(ds[0].get("replay_base") or {}, kind="hashseed",
                                        hashseeds=hs, digest_key=k, seed=seed),
